@@ -523,6 +523,16 @@ pub fn child_main(args: &[String]) {
             let ops: Vec<OpCode> = if let Some(k) = which.strip_prefix("vnest-") {
                 let k: u16 = k.parse().unwrap();
                 vec![OpCode::VEmpty, OpCode::Loop(k, 2), OpCode::VEmpty, OpCode::VPush, OpCode::VLength]
+            } else if let Some(rest) = which.strip_prefix("bdouble-") {
+                // bdouble-<k>-<consumer>: a one-byte string doubled k times (2^k bytes, shared structure), then one consuming opcode
+                let (k, consumer) = rest.split_once('-').expect("bdouble-<k>-<consumer>");
+                let k: usize = k.parse().unwrap();
+                let mut p = vec![OpCode::PushB(vec![0x61])];
+                for _ in 0..k {
+                    p.extend([OpCode::Dup, OpCode::BAppend]);
+                }
+                p.extend(crate::props::c11::byte_consumers().into_iter().find(|c| c.0 == consumer).expect("consumer").1);
+                p
             } else {
                 hostile_lock_covenants().into_iter().find(|c| c.0 == which).expect("unknown covenant").1
             };
@@ -549,6 +559,12 @@ fn child_cases(run: &Run, thorough: bool) {
     for k in if thorough { vec![100u32, 1000, 10_000, 30_000, 65_535] } else { vec![1000, 65_535] } {
         cases.push(format!("vnest-{}", k));
     }
+    // exponentially large byte strings (cheap to build: shared halves) handed to every consuming opcode, up to just below 2^64 bytes
+    for k in if thorough { vec![30usize, 40, 50, 58, 62, 63] } else { vec![40usize, 63] } {
+        for (c, _) in crate::props::c11::byte_consumers() {
+            cases.push(format!("bdouble-{}-{}", k, c));
+        }
+    }
     run.states_add(cases.len() as u64);
     let pool = rayon::ThreadPoolBuilder::new().num_threads(6).build().unwrap();
     pool.install(|| {
@@ -560,7 +576,7 @@ fn child_cases(run: &Run, thorough: bool) {
             match out {
                 ChildOutcome::Done(v) => {
                     if v["result"] == "panic" {
-                        run.violation("C09", format!("covenant-execution/{}/{}", c, v["panic_class"].as_str().unwrap_or("?")), format!("spending a coin locked by the covenant '{}' panicked: {}", c, v["panic_msg"].as_str().unwrap_or("")), replay);
+                        run.violation("C09", format!("covenant-execution/{}/{}", if c.starts_with("bdouble-") { c.splitn(3, '-').nth(2).map(|x| format!("bdouble-{}", x)).unwrap_or(c.clone()) } else { c.clone() }, v["panic_class"].as_str().unwrap_or("?")), format!("spending a coin locked by the covenant '{}' panicked: {}", c, v["panic_msg"].as_str().unwrap_or("")), replay);
                     } else {
                         run.outcome(&format!("hostile-covenant:{}", v["result"].as_str().unwrap_or("?")));
                     }
